@@ -27,7 +27,8 @@ def run(ctx):
         "papaya::HashMap (get / get_or_insert_with / iter) and internal::left_right (modify = apply, later readers see it) are represented by their sequential contracts: one list of (topic, mailbox) pairs in push order",
         "Weak::upgrade of a mailbox succeeds iff the owning receiver handle has not been dropped; of the dispatcher iff some sender handle has not been dropped",
         "interleavings: model Q quantifies over all SEQUENCES of atomic API calls and is the one replayed against the implementation; model B (Fv.Chan.TopicB) splits send into its snapshot and one step per visited mailbox and quantifies over all schedules, but B's step structure (snapshot instant, one mailbox lock per visit, every other call atomic) is tied to the code only by reading and by the real-thread stress monitors, which check exactly B's theorems (per-publisher order, at most once, subscribed at an instant of the publish call, nothing owed is lost when never full) — not by replay",
-        "waiter registration / wake-ups of blocked or pending receivers are not modelled here (C05/C06); a blocking recv() that would park is reported as wouldblock and never executed",
+        "waiter registration / wake-ups of blocked or pending receivers are not modelled in Q (C05/C06); in the differential run a blocking recv() that would park is reported as wouldblock and not executed; it IS executed in the parked-receiver scenarios (released by a publish or by sender shutdown, under a watchdog)",
+        "'never blocks' on real threads is a timing judgement: a call counts as blocked when it takes >= 60% of the parked receiver's timeout (>= 1.5 s for untimed waits) on >= 2 of 3 repetitions while the same call on an idle control channel, timed immediately before, took < 20% of it",
         "receiver_count is a 64-bit usize with wrapping fetch_add/fetch_sub",
         "message payloads are opaque (never inspected by the code); topics and values are small integers (String keys are formatted integers)",
     ]
@@ -37,7 +38,9 @@ def run(ctx):
         raise RuntimeError("topich selftest failed (monitors no longer detect synthetic violations):\n" + out[-2000:] + err[-500:])
     ctx.notes.append("monitor selftest: %d synthetic histories judged correctly" % out.count(": ok"))
     if ctx.replay:
-        ctx.tie("replay", [h, "run", ctx.replay, "--prop", "C08"], [drv]); return
+        # real-thread cases (mode=block / mode=stress) are judged by the monitors only, not replayed on the model
+        threaded = any(("mode=block" in l or "mode=stress" in l) for l in open(ctx.replay) if l.startswith("#case "))
+        ctx.tie("replay", [h, "run", ctx.replay, "--prop", "C08"], None if threaded else [drv]); return
     ctx.tie("known-findings", [h, "run", os.path.join(VERIF, "findings", "C08_topic.case")], [drv])
     # the C04 topic witnesses are replayed on the model too (monitor family forced to C08)
     ctx.tie("c04-topic-witnesses", [h, "run", os.path.join(VERIF, "findings", "C04_topic.case"), "--prop", "C08"], [drv])
@@ -45,8 +48,13 @@ def run(ctx):
     if os.path.isdir(corpus):
         for f in sorted(os.listdir(corpus)):
             if f.endswith(".case"):
-                ctx.tie("corpus-" + f[:-5], [h, "run", os.path.join(corpus, f), "--prop", "C08"], [drv])
+                # regression cases of fixed findings: monitor family from the case headers; nothing may fire
+                ctx.tie("corpus-" + f[:-5], [h, "run", os.path.join(corpus, f)], [drv])
     n = 12000 if ctx.quick else 400000
     ctx.tie("topic-differential", [h, "gen", "--seed", str(ctx.seed), "--cases", str(n), "--tier", ctx.tier], [drv])
+    # receivers parked in recv_timeout(300..800 ms) / blocking recv() / pending async recv on EMPTY mailboxes while
+    # send / sender close, drop, shutdown / subscribe / clone calls are timed against an idle-channel baseline
+    w = 36 if ctx.quick else 600
+    ctx.tie("topic-parked-receivers", [h, "block", "--seed", str(ctx.seed), "--cases", str(w)], None)
     m = 60 if ctx.quick else 1500
     ctx.tie("topic-thread-stress", [h, "stress", "--seed", str(ctx.seed), "--cases", str(m), "--tier", ctx.tier], None)
